@@ -109,6 +109,13 @@ DS9_LINES = [
     'delete=0 source=0',
     'image; circle(1,2,3) || # composite',
     'image;circle(1,2,3);box(4,5,6,7,0)',
+    'image; text(5,5) # text={rot} textangle=30 textrotate=0',
+    'fk5; text(83.63,22.01) # text={sky rot} textangle=45 textrotate=0 '
+    'font="helvetica 10 normal roman"',
+    'image; text(7,7) # text={rot1} textangle=30 textrotate=1',
+    'image; point(3,4) # point=circle 9 color=red width=2 text={p}',
+    'image; ellipse(5,6,3,2,30) # dash=1 dashlist=8 3 fill=0 width=2 '
+    'tag={a} tag={b}',
     'fk5;circle(10:00:00,+20:00:00,30");galactic;circle(10:00:00,+20:00:00,30")',
 ]
 DS9_BAD_LINES = [
@@ -403,6 +410,8 @@ def gen_pool(rng):
                       gen.simple_region(rng, fits_ok, with_meta=0.0)]})
     add('bbox', {'t': 'bbox', 'v': [1, 10, 2, 8]})
     add('bbox', {'t': 'bbox', 'v': [-3, 4, 5, 30]})
+    add('optdict', {'t': 'dict', 'v': [['alpha', 0.5]]})
+    add('optdict', {'t': 'dict', 'v': []})
     add('mask', {'t': 'mask', 'mode': 'center', 'region': gen.simple_region(
         rng, ['CirclePixelRegion', 'EllipsePixelRegion',
               'RectanglePixelRegion', 'PolygonPixelRegion'], with_meta=0.0)})
@@ -531,6 +540,14 @@ class Skip(Exception):
     pass
 
 
+class Twice:
+    """Result of the same call issued twice in a row on the same objects
+    (inside one op): both results must be equal."""
+
+    def __init__(self, first, second):
+        self.first, self.second = first, second
+
+
 class DerivationMismatch(Exception):
     """In a pristine process the call that produced a derived input did not
     produce it (it raised, or returned another kind of object): that call's
@@ -617,6 +634,7 @@ class Exec:
         fault = a.fault
         wrec = []
         tracer = None
+        twice_diff = None
         if fault.get('kind') == 'line_abort':
             tracer = LineAbort(fault['k'])
         mode = self.cfg['warn']
@@ -629,6 +647,11 @@ class Exec:
                         res = fn()
                         if hasattr(res, '__next__'):
                             res = list(res)
+                        if isinstance(res, Twice):
+                            c1, c2 = canon(res.first), canon(res.second)
+                            if c1 != c2:
+                                twice_diff = diff(c1, c2)
+                            res = res.first
                     finally:
                         if tracer:
                             tracer.stop()
@@ -653,6 +676,9 @@ class Exec:
         elif k == 'warn_error':
             fired = out[0] == 'raise' and 'Warning' in out[1]
         changed = []
+        if twice_diff is not None:
+            changed.append('the call repeated at once on the same objects '
+                           f'returned something else: {twice_diff}')
         for w in [w for w in wrec if w[0] == '<warning filters>']:
             wrec.remove(w)
             changed.append('warnings.filters: ' + w[1])
@@ -696,6 +722,7 @@ class Exec:
         if f.get('kind') == 'collab_fail':
             w = make_faulty_wcs(w, f.get('n', 1), f.get('exc', 'noconv'))
             a.faulty = w
+            a.track('wcs (failing collaborator)', w)
         elif a.bad() and a.rng.chance(0.5):
             a.fired = True
             c = a.rng.randrange(4)
@@ -940,6 +967,31 @@ class Exec:
             return reg.plot(origin=origin, ax=ax, **kw)
         return fn, f'{_n(reg)}.plot({origin},{kw})', None
 
+    def op_selector(self, a):
+        """``as_mpl_selector`` on a copy made for this call (attaching a
+        selector to a region is stateful by design), with an option dict the
+        application keeps and reuses."""
+        from matplotlib.figure import Figure
+        reg = a.slot(('pixreg',), lambda o: _n(o) in (
+            'RectanglePixelRegion', 'EllipsePixelRegion'))
+        props = a.slot(('optdict',))
+        kw = {'sync': a.rng.chance(0.5)}
+        if a.rng.chance(0.7):
+            kw['props'] = props
+        if a.bad():
+            a.fired = True
+            kw['nosuchkw'] = 1
+
+        def fn():
+            ax = Figure().add_subplot()
+            sel = reg.copy().as_mpl_selector(ax, **kw)
+            art = sel._selection_artist
+            return [type(sel).__name__, [float(x) for x in sel.extents],
+                    art.get_edgecolor(), art.get_facecolor(),
+                    art.get_linewidth(), art.get_linestyle(),
+                    art.get_alpha()]
+        return fn, f'{_n(reg)}.as_mpl_selector({sorted(kw)})', None
+
     def op_mpl_kwargs(self, a):
         reg = a.slot(REG)
         art = a.rng.pick(['Patch', 'Line2D', 'Text'])
@@ -1047,6 +1099,10 @@ class Exec:
         f = fmt
         if a.bad() and a.rng.chance(0.3):
             f = a.rng.pick([None, 'DS9', 'bogus'])
+        if a.rng.chance(0.25):
+            return (lambda: Twice(target.serialize(format=f, **kw),
+                                  target.serialize(format=f, **kw))), \
+                f'{_n(target)}.serialize({f!r},{kw}) twice', None
         if a.rng.chance(0.3):
             return (lambda: target.serialize(f, **kw)), \
                 f'{_n(target)}.serialize({f!r},{kw}) positional', None
@@ -1069,7 +1125,13 @@ class Exec:
                 data = data.copy()
                 k = a.rng.randrange(max(1, len(data)))
                 if 'SHAPE' in data.colnames and len(data):
-                    data['SHAPE'][k] = a.rng.pick(['bogus', 'pie', '!'])
+                    import warnings
+                    bad = a.rng.pick(['bogus', 'pie', '!'])
+                    col = [str(x) for x in data['SHAPE']]
+                    col[k] = bad
+                    with warnings.catch_warnings():
+                        warnings.simplefilter('ignore')
+                        data['SHAPE'] = col       # (a column wide enough)
                     a.fired = True
             except Exception:
                 pass
@@ -1105,6 +1167,30 @@ class Exec:
                 f'Regions.parse(<{fmt}>, {f!r}) positional', None
         return (lambda: Regions.parse(data, format=f)), \
             f'Regions.parse(<{fmt}>, {f!r})', None
+
+    def op_parse_serialize(self, a):
+        """What a parser returns is an input like any other: serialise it,
+        twice, in the same or another format (parsers attach private data to
+        the regions they create; using it must not use it up)."""
+        from regions import Regions
+        fmt = a.rng.pick(['ds9', 'ds9', 'crtf', 'fits'])
+        data = a.slot(('table',) if fmt == 'fits' else ('text:' + fmt,))
+        if fmt != 'fits':
+            data = data[:1] + data[1:]
+            if a.rng.chance(0.5):
+                # one line only (so that one unsupported line elsewhere in
+                # the text cannot hide the others)
+                lines = DS9_LINES if fmt == 'ds9' else CRTF_LINES
+                head = '' if fmt == 'ds9' else '#CRTFv0\n'
+                data = head + a.rng.pick(lines) + '\n'
+        out = a.rng.pick([fmt, fmt, 'ds9', 'crtf', 'fits'])
+        kw = a.track('options', self._ser_kwargs(a, out, None))
+
+        def fn():
+            regs = Regions.parse(data, format=fmt)
+            return Twice([regs.serialize(format=out, **kw), regs],
+                         [regs.serialize(format=out, **kw), regs])
+        return fn, f'parse(<{fmt}>) then serialize({out!r},{kw}) twice', None
 
     def op_write_read(self, a):
         from regions import Regions
@@ -1172,14 +1258,27 @@ class Exec:
             kw['coordsys'] = 'image'
         name = a.rng.pick(['shared1.dat', 'shared2'])
         path = os.path.join(self.disk, name)
+        how = a.rng.pick(['plain', 'plain', 'pathlib', 'gz'])
+        gzname = {'ds9': 'shared.reg.gz', 'crtf': 'shared.crtf.gz',
+                  'fits': 'shared.fits.gz'}[fmt]
 
         def fn():
+            import gzip
+            import pathlib
             target.write(path, format=fmt, overwrite=True, **kw)
             with open(path, 'rb') as fh:
                 data = fh.read()
+            rpath = path
+            if how == 'pathlib':
+                rpath = pathlib.Path(path)
+            elif how == 'gz':
+                # a compressed copy under a name that later calls reuse
+                rpath = os.path.join(self.disk, gzname)
+                with open(rpath, 'wb') as fh:
+                    fh.write(gzip.compress(data, mtime=0))
             return [hashlib.sha1(data).hexdigest(), len(data),
-                    Regions.read(path)]
-        return fn, f'{_n(target)}.write+read({name},shared,{fmt})', None
+                    Regions.read(rpath)]
+        return fn, f'{_n(target)}.write+read({name},shared,{fmt},{how})', None
 
     def op_read_data(self, a):
         import regions
@@ -1331,7 +1430,9 @@ class Exec:
                                if n in b and b[n] != h] + \
                         [n for n in b if n not in dict(map(tuple, after_disk))]
                     mine = rec['desc']
-                    changed = [n for n in changed if f'({n},' not in mine]
+                    changed = [n for n in changed if f'({n},' not in mine
+                               and not (name == 'shared_io'
+                                        and n.startswith('shared.'))]
                     if changed:
                         self.violation('I1-disk', j, rec,
                                        f'{rec["desc"]} changed other files '
@@ -1823,16 +1924,19 @@ def reference_eval(arg):
 OPS = [('contains', 3), ('in', 1), ('sky_contains', 2), ('area_bbox', 2),
        ('to_mask', 3), ('mask_apply', 4.5), ('bbox_ops', 1.5), ('to_sky', 3),
        ('to_pixel', 3), ('rotate', 2), ('copy', 2), ('combine', 1.5),
-       ('as_artist', 2.5), ('plot', 1.5), ('mpl_kwargs', 1), ('eq', 1.5),
+       ('as_artist', 2.5), ('plot', 1.5), ('selector', 1), ('mpl_kwargs', 1),
+       ('eq', 1.5),
        ('repr', 1),
        ('polygon', 0.7), ('pixcoord', 2), ('serialize', 6), ('parse', 5),
+       ('parse_serialize', 3),
        ('write_read', 3), ('shared_io', 2.5), ('read_data', 1.5),
        ('get_formats', 0.5),
        ('regions_ops', 1.5)]
 FAULT_OPS = {
     'bad_arg': ['contains', 'in', 'to_mask', 'mask_apply', 'rotate',
-                'combine', 'as_artist', 'plot', 'mpl_kwargs', 'pixcoord',
-                'serialize',
+                'combine', 'as_artist', 'plot', 'selector', 'mpl_kwargs',
+                'pixcoord',
+                'serialize', 'parse_serialize',
                 'parse', 'to_sky', 'to_pixel', 'sky_contains', 'write_read'],
     'collab_fail': ['to_sky', 'to_pixel', 'sky_contains', 'pixcoord'],
     'os_fail': ['write_read', 'read_data'],
@@ -1840,6 +1944,8 @@ FAULT_OPS = {
     'line_abort': [k for k, _ in OPS if k not in ('get_formats',)],
 }
 NSLOTS = 4
+TWIN_OPS = ('serialize', 'write_read', 'shared_io', 'to_mask', 'as_artist',
+            'plot', 'to_sky', 'to_pixel', 'mask_apply', 'rotate')
 
 
 def gen_plan(seed, index, tier='quick'):
@@ -1875,7 +1981,15 @@ def gen_plan(seed, index, tier='quick'):
                 if fk == 'line_abort':
                     op['fault']['k'] = max(1, int(10 ** f_rng.uniform(0, 3.6)))
         ops.append(op)
-        if ops_rng.chance(0.2) and len(ops) < n and \
+        if k in TWIN_OPS and ops_rng.chance(0.2) and len(ops) < n and \
+                'fault' not in op:
+            # the same receiver (same slot hints) called again with other
+            # option values (another sub-seed): what the first call did to
+            # the object's private state must not show in the second
+            tw = {'op': k, 's': list(op['s']), 'r': ops_rng.getrandbits(48),
+                  'store': False, 'twin': True}
+            ops.append(tw)
+        elif ops_rng.chance(0.2) and len(ops) < n and \
                 op.get('fault', {}).get('kind') != 'line_abort':
             op['store'] = False
             rep = dict(op)
@@ -2015,7 +2129,8 @@ def worker_post(plan, res, ctx, fork_call, tier_cfg):
         if e.get('skip'):
             continue
         j = e['j']
-        take = sel.random() < frac or j >= n - 5
+        take = sel.random() < frac or j >= n - 5 or \
+            plan['ops'][j].get('twin')
         if not take or e['outcome'][0] == 'abort' or \
                 e.get('fault') == 'line_abort':
             continue
